@@ -114,6 +114,22 @@ def check_io(conf, G, nodes, times, P, PP, combo, serial):
                 missing=bool(P - PH), extra=bool(PH - P))
         for sub, sig, det in oracles.canonical(H, conf, what='read_snapshots'):
             bad('read-back-' + sig['kind'], det)
+    # the same text read with the other id type, in the same process: int ids read as strings (and, for digit-free string
+    # ids, nothing to cross) -- a reader must not remember conversions of an earlier call
+    if nt is int and target == 'plain':
+        try:
+            H2 = dn.read_snapshots(path, directed=directed, nodetype=str, timestamptype=int, delimiter=d, encoding=enc)
+            want2 = set((str(u), str(v), t) for (u, v, t) in P)
+            hn2 = [str(n) for n in nodes]
+            got2 = observe.presence(H2, hn2, sorted(times))
+            if got2 != want2 or any(not isinstance(n, str) for n in H2.nodes()):
+                bad('read-with-other-nodetype-differs', {'node types': sorted(set(type(n).__name__ for n in H2.nodes())),
+                                                        'missing': repr(sorted(want2 - got2)[:4]), 'extra': repr(sorted(got2 - want2)[:4])})
+            H3 = dn.read_snapshots(path, directed=directed, nodetype=int, timestamptype=int, delimiter=d, encoding=enc)
+            if any(not isinstance(n, int) for n in H3.nodes()) or observe.presence(H3, list(nodes), sorted(times)) != P:
+                bad('read-after-other-nodetype-differs', {'node types': sorted(set(type(n).__name__ for n in H3.nodes()))})
+        except Exception as ex:
+            bad('read-with-other-nodetype-raises', {'exc': repr(ex)[:200]}, exc=type(ex).__name__)
     try:
         os.unlink(path)
     except OSError:
@@ -122,6 +138,66 @@ def check_io(conf, G, nodes, times, P, PP, combo, serial):
 
 
 _serial = [0]
+
+
+def big_files(rep, known):
+    """files with many rows (long runs): exact rows and read-back presence at every instant, every target"""
+    import collections as _c
+    n = 0
+    viols = []
+    for cls in ('DynGraph', 'DynDiGraph'):
+        for target in iocommon.TARGETS:
+            G = getattr(dn, cls)()
+            spans_ = [(0, 1, -3, 700), (1, 2, 5, 400), (2, 0, 650, 1300), (0, 1, 900, None)]
+            for (u, v, t, e) in spans_:
+                G.add_interaction(u, v, t) if e is None else G.add_interaction(u, v, t, e)
+            want = _c.Counter()
+            pres = set()
+            for (u, v, t, e) in spans_:
+                for x in range(t, (t + 1) if e is None else e):
+                    want[(str(u), str(v), str(x))] += 1
+                    pres.add((u, v, x))
+            path = iocommon.fname('big-%s-%s' % (cls, target), iocommon.EXT[target])
+            n += 1
+            try:
+                if target == 'fileobj':
+                    with open(path, 'wb') as f:
+                        dn.write_snapshots(G, f)
+                else:
+                    dn.write_snapshots(G, path)
+                rows = iocommon.raw_bytes(path, target).decode('utf-8').split('\n')
+                got = _c.Counter()
+                for r in rows[:-1]:
+                    a = tuple(r.split(' '))
+                    got[a if (a in want or cls == 'DynDiGraph') else (a[1], a[0]) + a[2:]] += 1
+                ok = rows[-1] == '' and got == want
+                H = None
+                if ok:
+                    if target == 'fileobj':
+                        with open(path, 'rb') as f:
+                            H = dn.read_snapshots(f, directed=(cls == 'DynDiGraph'), nodetype=int, timestamptype=int)
+                    else:
+                        H = dn.read_snapshots(path, directed=(cls == 'DynDiGraph'), nodetype=int, timestamptype=int)
+                    for (u, v) in ((0, 1), (1, 2), (2, 0), (1, 0), (0, 2)):
+                        for x in range(-5, 1305):
+                            exp = (u, v, x) in pres or (cls == 'DynGraph' and (v, u, x) in pres)
+                            if bool(H.has_interaction(u, v, x)) != exp:
+                                ok = False
+                if not ok:
+                    viols.append(common.Violation(PROP, 'big-file', {'kind': 'many-rows-file-differs', 'cls': cls, 'target': target,
+                                                                     'rows': len(rows) - 1, 'expected_rows': sum(want.values())},
+                                                  {'big': True}, {'rows written': len(rows) - 1, 'expected': sum(want.values()),
+                                                                  'first odd rows': repr([r for r in rows[:-1] if len(r.split(' ')) != 3][:3])}))
+            except Exception as ex:
+                viols.append(common.Violation(PROP, 'big-file', {'kind': 'many-rows-file-raises', 'cls': cls, 'target': target, 'exc': type(ex).__name__},
+                                              {'big': True}, {'raised': repr(ex)[:200]}))
+            finally:
+                try:
+                    os.unlink(path)
+                except OSError:
+                    pass
+    rep.add_violations(viols, known)
+    return n
 
 
 def state_fn(conf, hist, G, M):
@@ -207,11 +283,13 @@ def run(tier, seed):
     iocommon.scratch()
     rep4 = common.Report(PROP, tier, seed, LEVEL)
     n4 = four_column_rows(rep4, known)
+    nbig = big_files(rep4, known)
     orig_finish = common.Report.finish
 
     def finish(self, known_, rule, extra_=None):
         self.cov['four_column_row_sequences'] = n4
-        self.cov['evaluations'] += n4
+        self.cov['many_row_files'] = nbig
+        self.cov['evaluations'] += n4 + nbig
         for k, (v, c) in rep4.vclasses.items():
             self.vclasses[k] = [v, c]
             self.nviol += c
@@ -235,6 +313,11 @@ def run(tier, seed):
 
 
 def replay(case):
+    if 'big' in case:
+        iocommon.scratch()
+        rep = common.Report(PROP, 'quick', 0, LEVEL)
+        big_files(rep, [])
+        return [v for v, c in rep.vclasses.values()]
     if 'rows' in case:
         rep = common.Report(PROP, 'quick', 0, LEVEL)
         four_column_rows(rep, [])
